@@ -1,0 +1,8 @@
+//go:build !verif
+// +build !verif
+
+package stateless
+
+import "github.com/ipfs/ipfs-cluster/pintracker/optracker"
+
+func verifGate(point string, op *optracker.Operation) {}
